@@ -21,6 +21,7 @@ Mat sqrtm_db(const Mat & A);             // Denman-Beavers
 Mat inv(const Mat & A);                  // full pivoting Gauss-Jordan
 Vec solve(const Mat & A, const Vec & b); // full pivoting
 L maxabs(const Mat & A);
+Vec eigvals_sym(const Mat & A);            // cyclic Jacobi, ascending
 Mat eye(int n);
 
 // ---------- group layouts (from the documentation blocks) ----------
